@@ -305,6 +305,45 @@ def r_optmap(body, result=False):
         body = body[:j] + new + body[close + 1:]
 
 
+
+def r_foreach(body):
+    """RECV.for_each(|PAT| BODY)  ->  for PAT in RECV { BODY }      (definition of Iterator::for_each; R-foreach)"""
+    log = []
+    guard = 0
+    while True:
+        guard += 1
+        if guard > 100:
+            raise Unsupported("R-foreach: did not converge")
+        m = code_mask(body)
+        mo = None
+        for x in re.finditer(r"\.for_each\(\s*", body):
+            if m[x.start()]:
+                mo = x
+                break
+        if mo is None:
+            return body, log
+        close = match_close(body, m, mo.end() - 1 - (len(mo.group(0)) - len(mo.group(0).rstrip())))
+        clos = body[mo.end():close].strip()
+        cm = re.match(r"\|\s*([^|]*?)\s*\|\s*", clos)
+        if not cm:
+            raise Unsupported("R-foreach: closure literal expected")
+        pat = cm.group(1).strip()
+        cbody = clos[cm.end():].strip()
+        if not cbody.startswith("{"):
+            cbody = "{ %s; }" % cbody
+        j = _recv_start(body, m, mo.start())
+        recv = body[j:mo.start()].strip()
+        rs = re.sub(r"\s+", "", recv)
+        if rs.endswith(".iter()"):
+            # bind the iterated collection first (temporary lifetime extension of `&expr`), as the closure form keeps it alive
+            base = recv[:recv.rstrip().rfind(".iter()")].rstrip()
+            new = "{ let for_each_src_ = &(%s); for %s in for_each_src_.iter() %s }" % (base, pat, cbody)
+        else:
+            new = "for %s in %s %s" % (pat, recv, cbody)
+        log.append(("R-foreach", norm_ws(body[j:close + 1])[:200], norm_ws(new)[:240]))
+        body = body[:j] + new + body[close + 1:]
+
+
 def r_tryfold(body):
     """RECV.try_fold(INIT, |ACC, PAT| BODY)  ->  { let mut ACC = INIT; for PAT in RECV { ACC = (BODY)?; } ACC_OK }
     where the whole expression is in tail / `?` position; emitted as a block evaluating to Result: Ok(ACC).
@@ -667,6 +706,9 @@ def emit_fn(f, udir, unit_props, recs, log_global):
             log += l
         if "optmap" in rewrites or ("resmap" not in rewrites and "no-optmap" not in rewrites):
             body, l = r_optmap(body)
+            log += l
+        if "foreach" in rewrites:
+            body, l = r_foreach(body)
             log += l
         if "resmap" in rewrites:
             body, l = r_optmap(body, result=True)
